@@ -298,8 +298,9 @@ func (j *jsonReader) Tag() int {
 		return 0
 	}
 	if strings.HasPrefix(rawTag, "0x") {
-		parsedTag, err := strconv.ParseInt(rawTag[2:], 16, 32)
-		if err != nil {
+		// A tag is a non-zero 3-byte number: anything else (a sign, more than 24 bits, zero) is not a tag.
+		parsedTag, err := strconv.ParseUint(rawTag[2:], 16, 24)
+		if err != nil || parsedTag == 0 {
 			// TODO: return error
 			return 0
 		}
